@@ -31,6 +31,10 @@ pub struct Spec {
     pub products_side: bool,
     pub dissent: Dissent,
     pub entry: u8,
+    /// the dissenting link is signed by the *same key material under its other key id* (also listed in the key table
+    /// and, last, in the step's pubkeys), while the link under the first id agrees with the others
+    #[serde(default)]
+    pub twin: bool,
 }
 
 /// Make step `i` a multi-party step (threshold >= 2 with >= threshold links); None if impossible.
@@ -138,7 +142,7 @@ impl Property for C07 {
          with identical materials and products), then exactly one link (or, when two functionaries delegated the step, the inner evidence of one functionary's own copy) is edited and re-signed by its own key: one path renamed, one digest \
          changed, one algorithm changed or added/removed, one entry added or removed - in materials or in products; the dissenter's position \
          in key-id order is varied (first/middle/last). Oracle: Ok only if all counted links of every step with threshold >= 2 have equal \
-         materials and equal products. The dissenting world is written over the agreeing one in the same link directory after the agreeing one was verified there once (same paths, one fixed modification time; ChangeDigest/RenamePath keep the file size). Non-trivial: the dissent is real (maps differ) and the control without dissent verifies Ok; distinct \
+         materials and equal products. In a fifth of the cases the dissenting link is signed under the second key id of one key (Ed25519 raw/PKCS#8 import, RSA under its other PSS scheme) that the step also authorises, while the link under the first id agrees. The dissenting world is written over the agreeing one in the same link directory after the agreeing one was verified there once (same paths, one fixed modification time; ChangeDigest/RenamePath keep the file size). Non-trivial: the dissent is real (maps differ) and the control without dissent verifies Ok; distinct \
          by (t, k, edit kind, side, position, layout shape)."
             .into()
     }
@@ -158,12 +162,13 @@ impl Property for C07 {
             any::<bool>(),
             prop_oneof![Just(Dissent::RenamePath), Just(Dissent::ChangeDigest), Just(Dissent::ChangeAlgorithm), Just(Dissent::AddAlgorithm), Just(Dissent::AddEntry), Just(Dissent::RemoveEntry)],
             any::<u8>(),
+            prop_oneof![4 => Just(false), 1 => Just(true)],
         )
-            .prop_filter_map("a step can be made multi-party", |((world, owners), step, position, products_side, dissent, entry)| {
+            .prop_filter_map("a step can be made multi-party", |((world, owners), step, position, products_side, dissent, entry, twin)| {
                 let n = world.layout.steps.len();
                 let i = step as usize % n;
                 let w = force_multiparty(&world, i)?;
-                Some(Spec { world: w, owners, step: i as u8, position, products_side, dissent, entry })
+                Some(Spec { world: w, owners, step: i as u8, position, products_side, dissent, entry, twin })
             })
             .boxed()
     }
@@ -207,6 +212,26 @@ impl Property for C07 {
                 }
             }
             _ => {}
+        }
+        if spec.twin {
+            if let Body::Link { .. } = &w.links[target].body {
+                let k = w.links[target].filed_under.clone();
+                if let Some(t) = twin_of(&k) {
+                    if !w.layout.keys.iter().any(|x| key_id_str(x) == key_id_str(&t)) {
+                        let mut f = w.links[target].clone();
+                        f.filed_under = t.clone();
+                        if let Body::Link { sigs, .. } = &mut f.body {
+                            *sigs = vec![SigEntry::good(&t)];
+                        }
+                        // the link under the first id agrees again
+                        w.links[target] = spec.world.links[target].clone();
+                        w.links.push(f);
+                        w.layout.keys.push(t.clone());
+                        w.layout.steps[spec.step as usize].pubkeys.push(t);
+                        o.class("dissent-under-second-id-of-one-key");
+                    }
+                }
+            }
         }
         let now = now_secs();
         let dir = env.fresh_dir("c07");
